@@ -413,7 +413,7 @@ class C13(common.Prop):
     vo_deps = ['theories/Frag/StripCheck.vo']
     prop_file = 'theories/Properties/C13.v'
     case_requires = ('From Coq Require Import String.\nFrom Coq Require Import List Ascii ZArith Bool.\n'
-                     'From CGV Require Import Base.PyBase Base.PyVal Frag.NDict Frag.StripImpl Frag.FragText Frag.SmilesParse Frag.StripCheck.')
+                     'From CGV Require Import Base.PyBase Base.PyVal Frag.NDict Frag.StripImpl Frag.FragText Frag.SmilesParse Frag.Template Frag.StripCheck.')
     quick_cases = 2400
     thorough_cases = 40000
     extended_cases = 12000
@@ -474,6 +474,9 @@ class C13(common.Prop):
                  '[H+]', '[Fe+2]', '[O--]', '[C+-]', '[CH23]', '[C:12]', '[*]', '*', 'C.C', 'C$C', 'c:c', 'cC', 'cc',
                  'Cl', 'ClC', 'CBr', 'Clc', 'C l', 'HC', 'C|2', 'CSi', '[Si]', 'C(=O)O', 'C1CC=1', 'C%05CC5', 'C(C1)C1',
                  'C1CC1C1CC1', 'C12CC1C2', '']]
+        out += [{'kind': 'template', 'name': 'PEO', 'text': t} for t in
+                ['[$]COC[$]', '[>]CC(/F)=C(\\F)C[<]', '[$]C[O;0.5]C[$][$1]', 'c1ccccc1[$]', 'C=1[$]CC=1', 'C.[$]', '[$]=C[NH3+]',
+                 'OC[!][!]', '[H;0.3]C[$]O[C;0.5][$]', '[$]CO[C;0.5][$]([H;0.1])[H;0.2]', 'C[H]', 'Cl[$]']]
         out += [{'kind': 'split', 'text': t} for t in
                 ['{#A=[$]CC[$],#B=[$]OC}', '{#A=CC}', '{}', '{#A}', '{#A=C=C,#B=[C;x=R]}', '', '{', '{#A=C,}']]
         return out
@@ -515,8 +518,13 @@ class C13(common.Prop):
         ring_on, split_on = self.helpers_enabled(ctx)
         out = []
         for _ in range(n):
-            if rng.random() < 0.3:
+            q = rng.random()
+            if q < 0.27:
                 out.append(self.gen_smiles(rng))
+                continue
+            if q < 0.37:
+                toks = Builder(rng, False).build()
+                out.append({'kind': 'template', 'name': rng.choice(NAMES), 'text': render(toks, rand_decor(rng, toks))})
                 continue
             r = rng.random()
             if (r >= 0.92 and r < 0.96 and not ring_on) or (r >= 0.96 and not split_on):
@@ -563,6 +571,22 @@ class C13(common.Prop):
                 return {'exc': type(exc).__name__}
         if case['kind'] == 'smiles':
             return run_pysmiles(case['text'])
+        if case['kind'] == 'template':
+            import logging
+            logging.getLogger('pysmiles').setLevel(logging.CRITICAL)
+            out = {'fo': float_table(case['text'])}
+            try:
+                pairs = list(rf.fragment_iter('{#%s=%s}' % (case['name'], case['text']), all_atom=True))
+                (fname, g), = pairs
+                skip = ('hcount', 'rs_isomer', '_pos', '_atom_str', 'atomname', 'ez_isomer_class', 'single_h_frag',
+                        'ez_isomer_atoms')
+                out['nodes'] = [[n, {k: v for k, v in d.items() if k not in skip}] for n, d in g.nodes(data=True)]
+                out['edges'] = [[u, v, d.get('order')] for u, v, d in g.edges(data=True)]
+                if fname != case['name'] or any((not isinstance(n, int)) or n < 0 for n, _ in out['nodes']):
+                    out = {'fo': out['fo'], 'exc': 'unexpected keys'}
+            except BaseException as exc:
+                out['exc'] = type(exc).__name__
+            return out
         if case['kind'] == 'split':
             saved = (rf.strip_bonding_descriptors, rf.read_fragment_smiles)
             seen = []
@@ -604,6 +628,15 @@ class C13(common.Prop):
         return '{| d_kind := %s; d_label := %s; d_sym := %s |}' % (lit.ch(d[0]), lit.s(d[1]), lit.opt(d[2], lambda x: BSYM[x]))
 
     def coq_case(self, case, impl):
+        if case['kind'] == 'template':
+            fo = lit.lst([lit.pair(lit.s(p), lit.opt(r, lit.s)) for p, r in impl['fo']])
+            if 'exc' in impl:
+                obs = 'None'
+            else:
+                obs = '(Some (%s, %s))' % (
+                    lit.lst([lit.pair(lit.nat(n), lit.attrs(d)) for n, d in impl['nodes']]),
+                    lit.lst(['(%s, %s, %s)' % (lit.nat(u), lit.nat(v), lit.pyval(o)) for u, v, o in impl['edges']]))
+            return '(CTemplate %s %s %s %s)' % (lit.s(case['name']), lit.s(case['text']), fo, obs)
         if case['kind'] == 'smiles':
             b, f = impl['base'], impl['full']
             if 'exc' in b:
@@ -658,6 +691,7 @@ class C13(common.Prop):
 
     # -- bookkeeping -----------------------------------------------------------------------
     def python_oracle(self, case, impl):
+        """fallback oracle (the Coq side could not be built): clause + 10 * defect class, like prop_fail"""
         if case['kind'] != 'strip' or not case.get('judge'):
             return 0
         from cgsmiles.dialects import _fragment_node_parser
@@ -666,16 +700,19 @@ class C13(common.Prop):
         except Exception:
             return 0
         if 'exc' in impl:
-            return 9
-        if impl['smile'] != clean:
-            return 1
-        if {k: v for k, v in impl['desc']} != desc:
-            return 2
-        if {k: v for k, v in impl['ez']} != ez:
-            return 3
-        if {k: v for k, v in impl['ann']} != ann:
-            return 4
-        return 0
+            code = 9
+        elif impl['smile'] != clean:
+            code = 1
+        elif {k: v for k, v in impl['desc']} != desc:
+            code = 2
+        elif {k: v for k, v in impl['ez']} != ez:
+            code = 3
+        elif {k: v for k, v in impl['ann']} != ann:
+            code = 4
+        else:
+            return 0
+        cls = 3 if any(t[0] == 'M' for t in case['toks']) else 0      # python mirror of FragText.class_of
+        return code + 10 * cls
 
     def known_class(self, case, impl, code):
         if code in (97, 98):
@@ -695,6 +732,8 @@ class C13(common.Prop):
     def case_class(self, case, impl):
         if case['kind'] == 'smiles':
             return 'pysmiles:' + (impl['full'].get('exc') or 'graph')
+        if case['kind'] == 'template':
+            return 'template:' + (impl.get('exc') or 'graph')
         if case['kind'] != 'strip':
             return 'helper:' + case['kind']
         if not case.get('judge'):
